@@ -1,8 +1,8 @@
 """C05 - pattern rewrites preserve meaning (DESIGN.md 6/C05)."""
-from checks import relobs
+from checks import relobs, findgen, findobs
 
 LEVEL = "model_checking"
-RULES = ("rel.norewrite", "rel.spec")
+RULES = ("rel.norewrite", "rel.spec", "find.mismatch")
 
 
 def run(ctx, res):
@@ -23,6 +23,11 @@ def run(ctx, res):
                [("accel%d" % i, ["-n", "3000", "-profile", "accel", "-variant", "norewrite"]) for i in range(2)]
     for k, (label, args) in enumerate(plan):
         relobs.obs_rel(ctx, res, args + ["-stream", str(S + k)], label, RULES)
+    # F leg on the families whose shapes the rewrites look at (loops followed by X inside iterated bodies, atomic groups,
+    # nested quantified groups): the rewritten program must equal the specification's prediction
+    fams = ["body3", "body3g"] if ctx.tier == "quick" else ["body3", "body3g", "grpq", "nested", "atom", "altseq"]
+    stride = 6 if ctx.tier == "quick" else 1
+    findgen.gen_find(ctx, res, fams, [], "net", False, [97, 98, 99], 3, stride, ctx.seed % stride, "F-rewrite-shapes")
     res.assumptions += ["TLC and the CommunityModules Json/IOUtils", "the rewrite gates (syntax/verif_on.go) switch off exactly the rewrites C05 names; reductions that are part of parsing (loop coalescing, quantifier multiplication) stay on"]
 
 
